@@ -219,6 +219,13 @@ pub fn run(seed: u64, count: usize, _thorough: bool, out: &mut Out) {
                     _ => {}
                 }
             }
+            if choice == 7 {
+                // a tensor on both sides with other values: the atoms still correspond
+                if let Some(a) = p.model_mut(1).and_then(|m| m.atoms_mut().find(|a| a.anisotropic_temperature_factors().is_some())) {
+                    a.set_anisotropic_temperature_factors([[0.3, 0.1, 0.2], [0.1, 0.4, 0.05], [0.2, 0.05, 0.5]]);
+                    label = "diff-tensor-values-only";
+                }
+            }
             if choice == 8 {
                 if let Some(m) = p.model_mut(1) {
                     m.remove_atoms_by(|a| a.serial_number() == 1);
